@@ -93,9 +93,10 @@ PROPS = {
     },
     "C16": {
         "groups": [
-            {"pkg": "client", "tags": "verif,test", "harness": "^verifH_C16_", "unwind": 5},
+            {"pkg": "client", "tags": "verif,test", "harness": "^verifH_C16_rows", "unwind": 5},
+            {"pkg": "client", "tags": "verif,test", "harness": "^verifH_C16_value_rule_fixed", "unwind": 5, "abstract_grace_s": 90, "timeout_ms": 120000},
         ],
-        "bounds": {"rows": "0..2 (quick) / 0..3 (thorough), each with 1..3 fields", "timestamps": "< genesis + 2^32 s", "value rule": "finite scaled values within +-9.2e18"},
+        "bounds": {"rows": "0..2 (quick) / 0..3 (thorough), each with 1..3 fields", "timestamps": "< genesis + 2^32 s", "value rule": "finite scaled values within +-9.2e18 (all calibrations, fp.mul/fp.div abstracted by uninterpreted functions); precise IEEE arithmetic for the calibration pairs (-2000,1000), (1000,1000), (-2000,908), (1,3) with readings in [24, 1e12)"},
         "outside": ["encoding/csv tokenisation (quotes, CRLF) and strconv text semantics (contracts)", "float->uint64 for NaN/Inf/overflow (absence of crashes only)", "arm64 float conversion (saturating)"],
     },
     "C09": {
